@@ -39,12 +39,37 @@ pub fn ron_str(s: &str) -> String {
 }
 
 pub fn schema_ron(sch: &Value) -> String {
+    schema_ron_with_order(sch, &Value::Null)
+}
+
+const DEFAULT_ORDER: &[&str] = &["Epoch", "Major", "Minor", "Patch", "Core", "PreReleaseLabel", "PreReleaseNum", "Post", "Dev", "ExtraCore", "Build"];
+
+/// the schema with its precedence order (written out only when it is not the default one)
+pub fn schema_ron_with_order(sch: &Value, order: &Value) -> String {
     let sec = |name: &str| arr(&sch[name]).iter().map(comp_ron).collect::<Vec<_>>().join(",");
-    format!("(core:[{}],extra_core:[{}],build:[{}])", sec("core"), sec("extra"), sec("build"))
+    let ord: Vec<String> = if order.is_null() { vec![] } else { arr(order).iter().map(|x| x.as_str().unwrap().to_string()).collect() };
+    let default = ord.is_empty() && order.is_null() || ord.iter().map(|s| s.as_str()).eq(DEFAULT_ORDER.iter().copied());
+    if default {
+        format!("(core:[{}],extra_core:[{}],build:[{}])", sec("core"), sec("extra"), sec("build"))
+    } else {
+        format!("(core:[{}],extra_core:[{}],build:[{}],precedence_order:[{}])", sec("core"), sec("extra"), sec("build"), ord.join(","))
+    }
 }
 
 fn opt(n: i64) -> Option<i64> {
     if n == NONE { None } else { Some(n) }
+}
+
+/// the text of a numeric flag value: a literal, or a template over the pre-bump snapshot
+fn num_text(n: i64) -> String {
+    match n {
+        -10 => "{{ major }}".into(),
+        -11 => "{{minor}}".into(),
+        -12 => "{{ patch }}".into(),
+        -13 => "{{ distance }}".into(),
+        -14 => "{{ post }}".into(),
+        _ => n.to_string(),
+    }
 }
 
 /// the tag text for a start version, in SemVer canonical shape or (when possible) PEP 440
@@ -107,18 +132,18 @@ pub fn argv_groups(a: &Value, rng: &mut StdRng, pep: bool) -> Vec<Vec<String>> {
     for (f, flag) in names {
         if let Some(n) = opt(a["ov"][f].as_i64().unwrap()) {
             if rng.gen_bool(0.5) {
-                g.push(vec![format!("--{flag}"), n.to_string()]);
+                g.push(vec![format!("--{flag}"), num_text(n)]);
             } else {
-                g.push(vec![format!("--{flag}={n}")]);
+                g.push(vec![format!("--{flag}={}", num_text(n))]);
             }
         }
         if let Some(n) = opt(a["bp"][f].as_i64().unwrap()) {
             if n == 1 && rng.gen_bool(0.6) {
                 g.push(vec![format!("--bump-{flag}")]);
             } else if rng.gen_bool(0.5) {
-                g.push(vec![format!("--bump-{flag}"), n.to_string()]);
+                g.push(vec![format!("--bump-{flag}"), num_text(n)]);
             } else {
-                g.push(vec![format!("--bump-{flag}={n}")]);
+                g.push(vec![format!("--bump-{flag}={}", num_text(n))]);
             }
         }
     }
@@ -165,7 +190,7 @@ pub fn argv_groups(a: &Value, rng: &mut StdRng, pep: bool) -> Vec<Vec<String>> {
     }
     match a["schema"]["kind"].as_str().unwrap() {
         "preset" => g.push(vec![s("--schema"), format!("{}{}", a["schema"]["fam"].as_str().unwrap(), a["schema"]["suffix"].as_str().unwrap())]),
-        "ron" => g.push(vec![s("--schema-ron"), schema_ron(&a["schema"]["sch"])]),
+        "ron" => g.push(vec![s("--schema-ron"), schema_ron_with_order(&a["schema"]["sch"], &a["schema"]["order"])]),
         _ => {}
     }
     g
@@ -186,7 +211,7 @@ fn stdin_ron(src: &Value) -> String {
     let tok = |n: i64, pool: &[&str]| if n == NONE { "None".to_string() } else { format!("Some({})", ron_str(pool[n as usize])) };
     format!(
         "(schema:{},vars:(major:{},minor:{},patch:{},epoch:{},pre_release:{},post:{},dev:{},distance:{},dirty:{},bumped_branch:{},bumped_commit_hash:{},bumped_timestamp:{}))",
-        schema_ron(&src["sch"]), o(g("major")), o(g("minor")), o(g("patch")), o(g("epoch")), pre, o(g("post")), o(g("dev")),
+        schema_ron_with_order(&src["sch"], &src["order"]), o(g("major")), o(g("minor")), o(g("patch")), o(g("epoch")), pre, o(g("post")), o(g("dev")),
         o(c["distance"].as_i64().unwrap()), dirty, tok(c["branch"].as_i64().unwrap(), BRANCH_TOKENS),
         tok(c["hash"].as_i64().unwrap(), HASH_TOKENS), o(c["ts"].as_i64().unwrap()))
 }
@@ -238,7 +263,9 @@ pub fn run_case(a: &Value, rng: &mut StdRng, pep: bool) -> (Vec<String>, Outcome
     let mut groups = argv_groups(a, rng, pep);
     groups.shuffle(rng);
     let stdin = if a["src"]["hasSchema"].as_bool().unwrap() { Some(stdin_ron(&a["src"])) } else { None };
-    let mut argv = vec!["version".to_string(), "--source".to_string(), if stdin.is_some() { "stdin" } else { "none" }.to_string()];
+    // smart source default: with stdin content the source may be left out
+    let mut argv = if stdin.is_some() && rng.gen_bool(0.3) { vec!["version".to_string()] }
+                   else { vec!["version".to_string(), "--source".to_string(), if stdin.is_some() { "stdin" } else { "none" }.to_string()] };
     for g in groups {
         argv.extend(g);
     }
@@ -404,8 +431,9 @@ pub fn random_args(rng: &mut StdRng) -> Value {
     let mut ov = serde_json::Map::new();
     let mut bp = serde_json::Map::new();
     for f in fields {
-        ov.insert(f.into(), json!(if rng.gen_bool(0.2) { small_or_big(rng) } else { NONE }));
-        bp.insert(f.into(), json!(if rng.gen_bool(0.2) { if rng.gen_bool(0.4) { 1 } else { small_or_big(rng) } } else { NONE }));
+        let val = |rng: &mut StdRng| if rng.gen_bool(0.15) { -(rng.gen_range(10..15) as i64) } else { small_or_big(rng) };
+        ov.insert(f.into(), json!(if rng.gen_bool(0.2) { val(rng) } else { NONE }));
+        bp.insert(f.into(), json!(if rng.gen_bool(0.2) { if rng.gen_bool(0.4) { 1 } else { val(rng) } } else { NONE }));
     }
     let labels = ["alpha", "beta", "rc"];
     ov.insert("label".into(), json!(if rng.gen_bool(0.15) { labels[rng.gen_range(0..3)] } else { "" }));
@@ -430,10 +458,21 @@ pub fn random_args(rng: &mut StdRng) -> Value {
                     "-base-context", "-base-prerelease-context", "-base-prerelease-post-context", "-base-prerelease-post-dev-context"];
     let full = json!({"core": [c_var("Major"), c_var("Minor"), c_var("Patch")],
                       "extra": [c_var("Epoch"), c_var("PreRelease"), c_var("Post"), c_var("Dev")], "build": []});
+    let mut random_order = |rng: &mut StdRng| -> Value {
+        let mut o: Vec<&str> = DEFAULT_ORDER.to_vec();
+        match rng.gen_range(0..10) {
+            0..=5 => {}
+            6..=8 => o.shuffle(rng),
+            _ => { o.shuffle(rng); o.truncate(rng.gen_range(0..11)); }
+        }
+        json!(o)
+    };
+    let fam = if rng.gen_bool(0.7) { "standard" } else { "calver" };
+    let sfx = suffixes[rng.gen_range(0..suffixes.len())];
     let schema = match rng.gen_range(0..10) {
-        0..=3 => json!({"kind": "preset", "fam": if rng.gen_bool(0.7) { "standard" } else { "calver" }, "suffix": suffixes[rng.gen_range(0..suffixes.len())], "sch": full}),
-        4..=6 => json!({"kind": "ron", "fam": "", "suffix": "", "sch": random_schema(rng)}),
-        _ => json!({"kind": "none", "fam": "", "suffix": "", "sch": full}),
+        0..=3 => json!({"kind": "preset", "fam": fam, "suffix": sfx, "sch": full, "order": DEFAULT_ORDER}),
+        4..=6 => json!({"kind": "ron", "fam": "", "suffix": "", "sch": random_schema(rng), "order": random_order(rng)}),
+        _ => json!({"kind": "none", "fam": "", "suffix": "", "sch": full, "order": DEFAULT_ORDER}),
     };
     let stdin = rng.gen_bool(0.4);
     let unset_ctx = json!({"distance": NONE, "dirty": NONE, "branch": NONE, "hash": NONE, "ts": NONE});
@@ -443,10 +482,10 @@ pub fn random_args(rng: &mut StdRng) -> Value {
                "ctx": {"distance": if rng.gen_bool(0.5) { small_or_big(rng) } else { NONE }, "dirty": dirty3,
                        "branch": if rng.gen_bool(0.5) { rng.gen_range(1..3) } else { NONE }, "hash": if rng.gen_bool(0.5) { 1 } else { NONE },
                        "ts": if rng.gen_bool(0.5) { rng.gen_range(0..2_000_000_000i64) } else { NONE }},
-               "sch": if rng.gen_bool(0.5) { full.clone() } else { random_schema(rng) }, "hasSchema": true})
+               "sch": if rng.gen_bool(0.5) { full.clone() } else { random_schema(rng) }, "hasSchema": true, "order": random_order(rng)})
     } else {
         json!({"v": {"epoch": NONE, "major": NONE, "minor": NONE, "patch": NONE, "pre": {"l": "none", "n": NONE}, "post": NONE, "dev": NONE},
-               "ctx": unset_ctx, "sch": full, "hasSchema": false})
+               "ctx": unset_ctx, "sch": full, "hasSchema": false, "order": DEFAULT_ORDER})
     };
     let has_tag = !stdin || rng.gen_bool(0.3);
     json!({"src": src, "hasTag": has_tag, "tag": random_v(rng, false), "ov": ov, "bp": bp, "ops": ops, "vcs": vcs, "schema": schema})
